@@ -29,5 +29,7 @@ if [ "$MODE" = replay ]; then
   "$SCR/simworker" replay -file "$FILE"
   exit $?
 fi
-"$SCR/simworker" drive -prop "$PROP" -tier "$TIER" -verif "$VERIF_DIR"
+OUT="${VERIF_OUT:-$VERIF_DIR}"
+if [ "$OUT" != "$VERIF_DIR" ]; then mkdir -p "$OUT"; cp "$VERIF_DIR/known_findings.json" "$OUT/"; fi
+"$SCR/simworker" drive -prop "$PROP" -tier "$TIER" -verif "$OUT"
 exit $?
